@@ -41,6 +41,18 @@ def _inputs(name, rng):
         a.kind = b.kind = "categoric"
         h = pd.Series(list(rng.choice(["p", "q", "r"], size=len(g))))
         return dict(a=a, b=b, xa=g, xb=h)
+    if name.endswith("merge_step"):
+        from formulae.contrasts import ExpandedFactor, Subterm
+        pool = [ExpandedFactor(bool(rng.integers(0, 4) == 0), f) for f in rng.choice(["f", "g", "h", "k"], size=int(rng.integers(1, 5)), replace=False)]
+        lo = Subterm(pool)
+        mode = int(rng.integers(0, 3))
+        if mode == 0:          # exactly one element less
+            sh = Subterm(pool[:-1])
+        elif mode == 1:        # some subset
+            sh = Subterm([e for e in pool if rng.integers(0, 2)])
+        else:                  # same size, one factor coded differently
+            sh = Subterm([ExpandedFactor(not pool[0].includes_intercept, pool[0].factor)] + pool[1:-1])
+        return dict(long=lo, short=sh)
     if name.endswith("scan_then_parse"):
         from ..props.C01 import _random_sentences
         import random
